@@ -28,7 +28,7 @@ def gen_sm(rng, corp, plain):
     b = 0
     for _ in range(rng.choice([0, 0, 1, 2])):
         b += rng.choice([2, 4, 6.25])
-        st.append("%.3f=%s" % (b, rng.choice(["0.5", "1", "0.125"])))
+        st.append("%.3f=%s" % (b, rng.choice(["0.5", "1", "0.125", "0.000", "0"])))
     sf["STOPS"] = ",".join(st)
     if not plain:
         if rng.random() < 0.3:
@@ -42,7 +42,9 @@ def gen_sm(rng, corp, plain):
             if rng.random() < 0.2:
                 sf[k] = rng.choice(["", "value", "0.000=Song Start", "0.83"])
         for _ in range(rng.randint(0, 3)):
-            sf[cc.rand_key(rng, forbid=("NOTES", "FREEZES"), allow_meta=False)] = cc.rand_value(rng, 8)
+            sf[cc.rand_key(rng, forbid=("NOTES", "FREEZES"), allow_meta=False)] = cc.rand_value(rng, 8) if rng.random() < 0.8 else None
+        if rng.random() < 0.15:
+            sf[rng.choice(["FGCHANGES", "DISPLAYBPM", "GENRE", "INSTRUMENTTRACK"])] = None      # key-only parameters
     n = rng.choice([0, 1, 2, 3])
     while len(sf.charts) > n:
         sf.charts.pop()
